@@ -59,9 +59,6 @@ theorem C06_materials_converge (x : Option Nat) (s : Mat.State) (es : List Mat.E
 
 /-! ## non-vacuity and the repaired defects -/
 
-instance (s : Asset.State) : Decidable (Asset.Quiescent s) := by
-  unfold Asset.Quiescent Asset.Peer.idle; infer_instance
-
 /-- host publishes 5 and overwrites with 6 while the first download is under way; then client 2 takes over:
 both epochs are disciplined and end drained, and everybody holds 9 -/
 example :
@@ -94,9 +91,6 @@ example :
     (Asset.run true true s0 as).host.content = some 5 ∧ Asset.Quiescent (Asset.run true true s0 as) ∧
     (Asset.run true false s0 as).host.content = some 7 := by
   decide
-
-instance (s : Mat.State) : Decidable (Mat.Quiescent s) := by
-  unfold Mat.Quiescent; infer_instance
 
 /-- materials: client 1 publishes twice in a burst, the host relays to client 2 -/
 example :
